@@ -2,6 +2,7 @@
 // flow descriptions, PCO / PSI, the UE policy container and the security functions, called from N goroutines at once.
 //
 //	conc runpar <manifest.json> <outprefix> <goroutines> <rounds> <aligned|staggered|alternate>
+//	conc runseq <family> <cases.json> <order.idx> <out.ndjson>      one family, one goroutine, the cases in the given order
 //
 // The manifest names one case file per family - the SAME case formats the families' own drivers replay
 // (cmd/conv17, cmd/identity, cmd/arealists, cmd/qos, cmd/pco, cmd/uepol, cmd/sec) - and cuts each file into blocks
@@ -10,9 +11,14 @@
 //	{"families":[{"name":"f17","cases":"/path/cases.json","blocks":[[0,40],[40,95]]}, ...]}
 //
 // Every goroutine runs every case of every block once per round, through its own runner and into its own buffers
-// (written to <outprefix>.<family>.<g>.ndjson at the end, with <...>.idx listing "case-index events" per executed
-// case).  The events have exactly the shapes of the families' drivers (the per-operation functions are copies, see
-// f12 .. fsec), so each goroutine's trace is validated by the family's trace specification.
+// (written to <outprefix>.<family>.<g>.ndjson at the end, with <...>.idx listing the executed cases in order, one
+// "case-index events-written-meanwhile" per line).  The events have exactly the shapes of the families' drivers: the
+// packages f12 .. fsec are generated from the drivers' sources by tools/conc_sync.py (per-goroutine Runner instead of
+// package-level writer / state), so each goroutine's trace is validated by the family's trace specification.
+//
+// runseq repeats the exact case order of one goroutine (its .idx file; or any list of case indexes) single-threaded in
+// this fresh process: the sequential run a concurrent trace is compared with, and - with the order 0, 1, 2, ... - the
+// run that must equal the family driver's own `replay` of the same case file event by event (drift guard).
 //
 // Schedules.  aligned: all goroutines work on the same block at the same time (a barrier between blocks), each
 // starting at its own seeded offset inside the block, so that the same library function runs concurrently on
@@ -75,53 +81,58 @@ func (s *sink) Emit(v interface{}) {
 type family struct {
 	name   string
 	n      int
-	runner func(s *sink) func(i int)
+	runner func(s *sink) runner
+}
+
+// runner: the per-goroutine view of one family (run case i; write out what is still held back)
+type runner struct {
+	run    func(i int)
+	finish func()
 }
 
 func load(spec famSpec) *family {
 	switch spec.Name {
 	case "f17":
 		cs := f17.Load(spec.Cases)
-		return &family{"f17", len(cs), func(s *sink) func(int) {
-			r := &f17.Runner{W: s}
-			return func(i int) { r.Run(&cs[i]) }
+		return &family{"f17", len(cs), func(s *sink) runner {
+			r := f17.NewRunner(s)
+			return runner{func(i int) { r.Run(&cs[i]) }, r.Finish}
 		}}
 	case "f12":
 		cs := f12.Load(spec.Cases)
-		return &family{"f12", len(cs), func(s *sink) func(int) {
-			r := &f12.Runner{W: s}
-			return func(i int) { r.Run(&cs[i]) }
+		return &family{"f12", len(cs), func(s *sink) runner {
+			r := f12.NewRunner(s)
+			return runner{func(i int) { r.Run(&cs[i]) }, r.Finish}
 		}}
 	case "f13":
 		cs := f13.Load(spec.Cases)
-		return &family{"f13", len(cs), func(s *sink) func(int) {
-			r := &f13.Runner{W: s}
-			return func(i int) { r.Run(&cs[i]) }
+		return &family{"f13", len(cs), func(s *sink) runner {
+			r := f13.NewRunner(s)
+			return runner{func(i int) { r.Run(&cs[i]) }, r.Finish}
 		}}
 	case "f15":
 		cs := f15.Load(spec.Cases)
-		return &family{"f15", len(cs), func(s *sink) func(int) {
-			r := &f15.Runner{W: s}
-			return func(i int) { r.Run(&cs[i]) }
+		return &family{"f15", len(cs), func(s *sink) runner {
+			r := f15.NewRunner(s)
+			return runner{func(i int) { r.Run(&cs[i]) }, r.Finish}
 		}}
 	case "f16":
 		cs := f16.Load(spec.Cases)
-		return &family{"f16", len(cs), func(s *sink) func(int) {
-			r := &f16.Runner{W: s}
-			return func(i int) { r.Run(&cs[i]) }
+		return &family{"f16", len(cs), func(s *sink) runner {
+			r := f16.NewRunner(s)
+			return runner{func(i int) { r.Run(&cs[i]) }, r.Finish}
 		}}
 	case "f18":
 		cs := f18.Load(spec.Cases)
-		return &family{"f18", len(cs), func(s *sink) func(int) {
+		return &family{"f18", len(cs), func(s *sink) runner {
 			r := f18.NewRunner(s)
-			return func(i int) { r.Run(&cs[i]) }
+			return runner{func(i int) { r.Run(&cs[i]) }, r.Finish}
 		}}
 	case "f06", "f07": // ciphering / integrity: same runner, separate traces (Trace_C06 / Trace_C07)
 		cs := fsec.Load(spec.Cases)
-		name := spec.Name
-		return &family{name, len(cs), func(s *sink) func(int) {
-			r := &fsec.Runner{W: s, Rng: rand.New(rand.NewSource(1))}
-			return func(i int) { r.Run(&cs[i]) }
+		return &family{spec.Name, len(cs), func(s *sink) runner {
+			r := fsec.NewRunner(s)
+			return runner{func(i int) { r.Run(&cs[i]) }, r.Finish}
 		}}
 	}
 	if f := loadExtra(spec); f != nil {
@@ -195,7 +206,7 @@ func runPar(m manifest, prefix string, n, rounds int, mode string) {
 			defer wg.Done()
 			rng := rand.New(rand.NewSource(seed*1000 + int64(g)))
 			sinks := make([]*sink, len(fams))
-			run := make([]func(int), len(fams))
+			run := make([]runner, len(fams))
 			for i, f := range fams {
 				sinks[i] = &sink{}
 				run[i] = f.runner(sinks[i])
@@ -207,7 +218,7 @@ func runPar(m manifest, prefix string, n, rounds int, mode string) {
 				for k := 0; k < size; k++ {
 					i := b.lo + (off+k)%size
 					before := s.n
-					run[b.fam](i)
+					run[b.fam].run(i)
 					fmt.Fprintf(&s.idx, "%d %d\n", i, s.n-before)
 					if rng.Intn(8) == 0 {
 						runtime.Gosched()
@@ -230,6 +241,7 @@ func runPar(m manifest, prefix string, n, rounds int, mode string) {
 				}
 			}
 			for i, f := range fams {
+				run[i].finish()
 				base := fmt.Sprintf("%s.%s.%d", prefix, f.name, g)
 				if err := os.WriteFile(base+".ndjson", sinks[i].buf.Bytes(), 0o644); err != nil {
 					ev.Fatal("%v", err)
@@ -249,10 +261,42 @@ func runPar(m manifest, prefix string, n, rounds int, mode string) {
 	fmt.Println("events", total)
 }
 
+// runSeq: one family, one goroutine, the given order of cases
+func runSeq(name, cases, order, out string) {
+	f := load(famSpec{Name: name, Cases: cases})
+	raw, err := os.ReadFile(order)
+	if err != nil {
+		ev.Fatal("%v", err)
+	}
+	s := &sink{}
+	r := f.runner(s)
+	for _, ln := range bytes.Split(raw, []byte("\n")) {
+		if len(bytes.TrimSpace(ln)) == 0 {
+			continue
+		}
+		var i int
+		if _, err := fmt.Sscan(string(ln), &i); err != nil || i < 0 || i >= f.n {
+			ev.Fatal("bad case index %q for %d cases", ln, f.n)
+		}
+		r.run(i)
+	}
+	r.finish()
+	if err := os.WriteFile(out, s.buf.Bytes(), 0o644); err != nil {
+		ev.Fatal("%v", err)
+	}
+	fmt.Println("events", s.n)
+}
+
 func main() {
 	ev.Quiet()
+	// many goroutines share few processors under the race detector: a call only counts as not returning after 20 s
+	f15.Watchdog, f16.Watchdog, f18.Watchdog = 20*time.Second, 20*time.Second, 20*time.Second
+	if len(os.Args) == 6 && os.Args[1] == "runseq" {
+		runSeq(os.Args[2], os.Args[3], os.Args[4], os.Args[5])
+		return
+	}
 	if len(os.Args) < 7 || os.Args[1] != "runpar" {
-		ev.Fatal("usage: conc runpar <manifest.json> <outprefix> <goroutines> <rounds> <aligned|staggered|alternate>")
+		ev.Fatal("usage: conc runpar <manifest.json> <outprefix> <goroutines> <rounds> <aligned|staggered|alternate> | conc runseq <family> <cases.json> <order.idx> <out.ndjson>")
 	}
 	raw, err := os.ReadFile(os.Args[2])
 	if err != nil {
@@ -269,7 +313,5 @@ func main() {
 	if n < 1 || rounds < 1 || (mode != "aligned" && mode != "staggered" && mode != "alternate") {
 		ev.Fatal("bad arguments")
 	}
-	// many goroutines share few processors under the race detector: a call only counts as not returning after 20 s
-	f15.Watchdog, f16.Watchdog, f18.Watchdog = 20*time.Second, 20*time.Second, 20*time.Second
 	runPar(m, os.Args[3], n, rounds, mode)
 }
